@@ -269,6 +269,10 @@ def run_C02(run):
     # (5c') count() of two-step paths that reach a node from several inputs (exercises the recorded finding KF-C02-2 in every run)
     run.gen_and_replay("MC_Expr", consts(BASE_EXPR, Family="C02count", MaxNodes=1 if q else 4, UseCat=True, CatIds={1, 3, 7} if q else ALL_CAT),
                        name="preds-count-two-step", kind="sel-set")
+    # (5c'') count() of a step with a boolean predicate followed by [n]: the argument keeps running positions, the verdict for
+    #        one candidate must not depend on the candidates tested before it (a clone of the argument shared between calls)
+    run.gen_and_replay("MC_Expr", consts(BASE_EXPR, Family="C02countpos", MaxNodes=1 if q else 5, UseCat=True, CatIds=ALL_CAT),
+                       name="preds-count-positional", kind="sel-set")
     # (5d) XQueryVM2: the implementation-shaped model of the predicate pipeline (filter / merge rewrite / group, Evaluate
     #      resets, cursor save/restore).  TLC checks it delivers the denotation (VM2Refines); the engine's delivery sequence
     #      and navigator movements are compared with the model's (a difference is MODEL DRIFT: reported, never a verdict)
